@@ -144,6 +144,17 @@ impl World {
         self.v.state(&self.names[m]).unwrap()
     }
 
+    /// "poor" miners: the owner withdraws everything that is available right after creation, so the
+    /// miner holds exactly its locked creation deposit and any penalty turns into fee debt
+    pub fn drain(&self) {
+        for m in self.miners.clone() {
+            let o = self.v.run_p(&self.names[&m.replace('m', "o")], &self.names[&m], &TokenAmount::from_atto(0),
+                MinerMethod::WithdrawBalance as u64,
+                &WithdrawBalanceParams { amount_requested: TokenAmount::from_whole(1_000_000) });
+            assert!(o.ok(), "drain: {}", o.message);
+        }
+    }
+
     fn name_of(&self, a: &Address) -> String {
         let id = self.v.resolve_id_address(a).unwrap_or(*a);
         for (n, x) in &self.names {
@@ -728,10 +739,21 @@ fn random_call(rng: &mut Rng, w: &World, policy: &Policy) -> Value {
         }
     }
     if (64..67).contains(&k) && !parts.is_empty() {
-        let p = rng.pick(&parts);
-        let live: Vec<u64> = p.2.iter().filter(|s| !p.6.contains(s)).cloned().collect();
-        if !live.is_empty() {
-            return json!({"a": "Terminate", "m": m, "c": who, "decls": [{"dl": p.0, "p": p.1, "s": subset(rng, &live)}]});
+        // one declaration, or (a third of the time) one declaration per partition over several deadlines
+        let mut decls = vec![];
+        let many = rng.chance(35);
+        let first = rng.pick(&parts).clone();
+        for p in parts.iter() {
+            // (a declaration for the open or the next deadline makes the code reject the whole message)
+            let mutable = p.0 != cur && p.0 != (cur + 1) % nd;
+            let chosen = if many { rng.chance(70) && (mutable || rng.chance(10)) } else { p.0 == first.0 && p.1 == first.1 };
+            let live: Vec<u64> = p.2.iter().filter(|s| !p.6.contains(s)).cloned().collect();
+            if chosen && !live.is_empty() {
+                decls.push(json!({"dl": p.0, "p": p.1, "s": subset(rng, &live)}));
+            }
+        }
+        if !decls.is_empty() {
+            return json!({"a": "Terminate", "m": m, "c": who, "decls": decls});
         }
     }
     if (67..71).contains(&k) && !parts.is_empty() {
@@ -758,8 +780,9 @@ fn random_call(rng: &mut Rng, w: &World, policy: &Policy) -> Value {
     if (87..88).contains(&k) {
         return json!({"a": "RepayDebt", "m": m, "c": who});
     }
-    if (88..89).contains(&k) {
-        return json!({"a": "Fund", "m": m, "nano": rng.range(1, 1_000_000)});
+    if (88..90).contains(&k) {
+        let some = rng.range(1, 1_000_000);
+        return json!({"a": "Fund", "m": m, "nano": *rng.pick(&[1, 1000, 1_000_000, 50_000_000, some])});
     }
     if (91..93).contains(&k) {
         return json!({"a": "ReportFault", "m": m, "age": *rng.pick(&[1, 1, 2, 0, 5]), "proven": rng.chance(90),
@@ -770,17 +793,32 @@ fn random_call(rng: &mut Rng, w: &World, policy: &Policy) -> Value {
         let cands: Vec<(String, u64)> = w.bad_posts.borrow().clone();
         if !cands.is_empty() && rng.chance(80) {
             let (bm, bd) = rng.pick(&cands).clone();
+            // now and then a sector of the disputed deadline loses its power first (declared faulty or
+            // terminated between the proof and the dispute)
+            if bm == m && rng.chance(35) {
+                if let Some(p) = parts.iter().find(|p| p.0 == bd as i64) {
+                    let live: Vec<u64> = p.2.iter().filter(|s| !p.6.contains(s) && !p.4.contains(s)).cloned().collect();
+                    if !live.is_empty() {
+                        let a = if rng.chance(50) { "DeclareFaults" } else { "Terminate" };
+                        return json!({"a": a, "m": m, "c": who, "decls": [{"dl": p.0, "p": p.1, "s": vec![live[0]]}]});
+                    }
+                }
+            }
             return json!({"a": "Dispute", "m": bm, "dl": bd, "idx": if rng.chance(85) { 0 } else { 1 }});
         }
         return json!({"a": "Dispute", "m": m, "dl": rng.range(0, nd - 1), "idx": rng.range(0, 1)});
     }
-    if (89..91).contains(&k) {
+    if (90..91).contains(&k) {
         return json!({"a": "Fault", "site": *rng.pick(&["reward->miner", "cron->market", "miner->market"])});
     }
     // advance time: usually to just before / at / after a deadline boundary
     let into = ((epoch - pps) % wdw + wdw) % wdw;
     let to_boundary = (wdw - into).max(1);
-    let n = *rng.pick(&[1, 1, 2, to_boundary - 1, to_boundary, to_boundary + 1, wdw, 3]);
+    let mut n = *rng.pick(&[1, 1, 2, to_boundary - 1, to_boundary, to_boundary + 1, wdw, 3]);
+    // rarely: more than a day, so that vesting-table entries (daily steps of the 180-day schedule) mature
+    if rng.chance(2) {
+        n = *rng.pick(&[2900, 4400, 1500]);
+    }
     json!({"a": "Tick", "n": n.max(1)})
 }
 
@@ -837,6 +875,9 @@ pub fn main(args: &[String]) {
             let boost = beh.first().and_then(|c| c["boost"].as_bool()).unwrap_or(false);
             let model = beh.first().map(|c| c["a"] != json!("Create")).unwrap_or(false);
             let w = World::new_boosted(seed + i as u64, nm, boost || model);
+            if beh.first().and_then(|c| c["poor"].as_bool()).unwrap_or(false) {
+                w.drain();
+            }
             // behaviours of MC_Sectors count epochs from a proving-period start of miner m1
             let mut e0 = 0;
             if model {
@@ -867,8 +908,12 @@ pub fn main(args: &[String]) {
         let nm = if rng.chance(35) { 2 } else { 1 };
         let boost = rng.chance(60);
         let w = World::new_boosted(seed.wrapping_mul(1000) + i, nm, boost);
+        let poor = rng.chance(40);
+        if poor {
+            w.drain();
+        }
         begin(&mut t, &w);
-        let mut calls = vec![json!({"a": "Create", "miners": nm, "boost": boost})];
+        let mut calls = vec![json!({"a": "Create", "miners": nm, "boost": boost, "poor": poor})];
         for _ in 0..len {
             let call = random_call(&mut rng, &w, &policy);
             t.line(&w.step(&call));
